@@ -139,7 +139,7 @@ def stepCore (s : St) (kind : String) (args impl : List String) : Option (St × 
     let inv ← nat? invT
     let resp ← nat? respT
     let res := impl.headD "?"
-    let pf := (if res == "panic" && 0 ≤ pi then [s!"side=impl key=panic-valid-index peer p{a} panicked writing piece {pi}"] else [])
+    let pf := (if res == "panic" then [s!"side=impl key=panic peer p{a} panicked writing piece {pi}"] else [])
     pure (setPM s a (fun m => { m with hist := m.hist ++ [{ id := id, pi := pi, payload := p, inv := inv, resp := resp, res := res }] }),
           { obs := impl, branch := s!"w.{res}", propfails := pf })
   | ["corrupt_served", _, _] => some (s, { obs := impl, branch := "corrupt_served" })
